@@ -52,6 +52,8 @@ const (
 	// generous: run() generates RSA keys for TLS instances before the first batch, which under a
 	// loaded machine has been seen to take more than 6 s (one false alarm, not reproducible)
 	c05Deadline = 15 * time.Second
+	// detail 3: the holding client answers once no request has arrived for this long
+	c05HoldIdle = 400 * time.Millisecond
 )
 
 // ---------------------------------------------------------------------------
@@ -201,22 +203,40 @@ func TestVerifC05FakeClient(t *testing.T) {
 			}
 		}
 	}()
+	var seenAddrs []string
 	for {
 		var req conformancev1.ClientCompatRequest
 		err := internal.ReadDelimitedMessage(os.Stdin, &req, "runner", 2*time.Minute, 1<<24)
 		if err != nil {
 			break
 		}
-		alive := 0
+		alive, aliveAll := 0, 0
 		if mode == "dial" {
-			conn, err := net.DialTimeout("tcp", net.JoinHostPort(req.Host, strconv.Itoa(int(req.Port))), 5*time.Second)
-			if err == nil {
-				alive = 1
-				_ = conn.Close()
+			// the in-process servers do not report to the coordinator: a server is alive as long as
+			// something accepts connections at the address the runner gave out for it.  Every address
+			// seen so far is tried at every request, so servers of different batches (and of the two
+			// server kinds, reference and grpc-go) alive at the same moment are counted together.
+			addr := net.JoinHostPort(req.Host, strconv.Itoa(int(req.Port)))
+			known := false
+			for _, a := range seenAddrs {
+				known = known || a == addr
+			}
+			if !known {
+				seenAddrs = append(seenAddrs, addr)
+			}
+			for _, a := range seenAddrs {
+				conn, err := net.DialTimeout("tcp", a, 5*time.Second)
+				if err == nil {
+					aliveAll++
+					if a == addr {
+						alive = 1
+					}
+					_ = conn.Close()
+				}
 			}
 		}
 		data, _ := proto.Marshal(&req)
-		link.send(fmt.Sprintf("R %d %s", alive, hex.EncodeToString(data)))
+		link.send(fmt.Sprintf("R %d %s %d", alive, hex.EncodeToString(data), aliveAll))
 	}
 	link.send("E")
 	<-acks
@@ -289,6 +309,8 @@ type c05Coord struct {
 	nByKey      map[c05Key]int
 	total       int
 	clientEOF   bool
+	hold        bool      // detail 3: answers are held back while requests keep arriving
+	lastRecv    time.Time // detail 2/3: arrival of the latest request
 	finished    bool
 	stuck       bool
 	protoErr    string
@@ -505,6 +527,12 @@ func (co *c05Coord) serveClient(conn net.Conn, r *bufio.Reader) {
 				// listens at the address, and which kind of server the expectation headers announce
 				send.key = wantKey
 				send.ok = g[1] == "1"
+				if len(g) > 3 {
+					if n, err := strconv.Atoi(g[3]); err == nil && n > co.maxAlive {
+						co.maxAlive = n
+					}
+				}
+				co.lastRecv = time.Now()
 				for _, h := range req.RequestHeaders {
 					if h.Name == "x-expect-protocol" {
 						send.sref = true
@@ -772,8 +800,11 @@ func (co *c05Coord) snapshot() vsx {
 
 // (detail lockstep verbose maxservers missing (run) (skip) (suites) (decisions) (script))
 func verifC05Run(args []vsx) vsx {
-	if len(args) != 10 || args[3].i < 1 || args[3].i > 64 || args[0].i < 0 || args[0].i > 2 {
+	if len(args) != 10 || args[3].i < 1 || args[3].i > 64 || args[0].i < 0 || args[0].i > 3 {
 		return vL(vS("bad-case"))
+	}
+	if args[0].i == 3 && args[1].boolean() {
+		return vL(vS("bad-case")) // the holding client has no script
 	}
 	if c05StuckCount >= 3 {
 		return vErr("skipped-after-three-stuck-runs")
@@ -806,6 +837,10 @@ func verifC05Run(args []vsx) vsx {
 	}
 	c05Setup()
 	detail := int(args[0].i)
+	hold := detail == 3
+	if hold {
+		detail = 2
+	}
 	lockstep, verbose := args[1].boolean(), args[2].boolean()
 	maxServers := int(args[3].i)
 	missing := args[4].boolean()
@@ -816,7 +851,8 @@ func verifC05Run(args []vsx) vsx {
 	co := &c05Coord{
 		epoch:       strconv.Itoa(c05EpochNo),
 		detail:      detail,
-		auto:        !lockstep,
+		auto:        !lockstep && !hold,
+		hold:        hold,
 		decisions:   map[c05Key]c05Decision{},
 		maxSrv:      maxServers,
 		outstanding: map[string]*c05Pending{},
@@ -872,6 +908,29 @@ func verifC05Run(args []vsx) vsx {
 		done <- runResult{res, err}
 	}()
 
+	if hold {
+		// The client keeps every answer back until no request has arrived for c05HoldIdle: the runner
+		// then has every batch open that its semaphore admits, and the client counts the servers alive
+		// at that moment.  Too short an idle time only makes batches overlap less (nothing is
+		// reported that did not happen).
+		go func() {
+			for {
+				time.Sleep(c05HoldIdle / 6)
+				co.mu.Lock()
+				if co.finished {
+					co.mu.Unlock()
+					return
+				}
+				if len(co.outstanding) > 0 && time.Since(co.lastRecv) > c05HoldIdle {
+					names := append([]string(nil), co.recvOrder...)
+					for _, n := range names {
+						co.answerLocked(n)
+					}
+				}
+				co.mu.Unlock()
+			}
+		}()
+	}
 	var snaps []vsx
 	if lockstep {
 		co.waitQuiescent()
@@ -956,7 +1015,7 @@ func verifC05Run(args []vsx) vsx {
 		}
 		sends[i] = vL(item...)
 	}
-	summary := vL()
+	summary := vL(vBool(co.maxAlive <= maxServers))
 	if detail != 2 {
 		first := vBool(co.maxAlive <= maxServers)
 		if lockstep {
